@@ -11,6 +11,8 @@ type tabEntry struct {
 }
 
 var boundsTable = map[string]tabEntry{
+	"executor.(*DepthExecutor).Execute$4/‹[]*executor.DepthExecutorResponse›[‹*executor.groupResponse›.index]": {1,
+		"positional reducer: the accumulator is made with len(groupedRequests) slots and every result carries an index drawn from lo.Range(len(groupedRequests)) — both checked by R9b (class POS-index) on every run"},
 	"executor.(*DepthExecutor).executeRequests/‹[]*executor.ExecutionRequest›[‹int›]": {2,
 		"both index values were recorded from `range ers` in this very call (iMap.Set(i, …) and nillResps[i]) and ers is not re-sliced"},
 	"executor.ExtractValueModifyingSource/‹[]interface{}›[‹*executor.PointData›.Index]": {2,
@@ -37,8 +39,6 @@ var boundsTable = map[string]tabEntry{
 		"i*m <= lInputs = len(acc) (chunk arithmetic, hand argument)"},
 	"queryer.(*MultiOpQueryer).queryBatch/‹[]map[string]interface{}›[‹[]int›[‹int›]]": {1,
 		"toFetchIndexes holds indices recorded from `range inputs`; results is made with len(inputs)"},
-	"executor.FindInsertionPoints/‹[]string›[‹int›]": {1,
-		"loop bound pointI < len(targetPoints); pointI starts at 0 or len(oldBranch[0])"},
 	"merger.(ExtendMergerFunc).Merge/‹[]*github.com/vektah/gqlparser/v2/ast.Schema›[‹int›]": {1,
 		"schemas has i+1 elements when ranging inputs[1:] at index i (one append per iteration, initial length 1)"},
 	"merger.mergeCustomObjectFields/‹github.com/vektah/gqlparser/v2/ast.FieldList›[‹int›]": {1,
@@ -64,19 +64,19 @@ var divTable = map[string]tabEntry{
 
 var nilTable = map[string]tabEntry{
 	"gqlerrors.(ErrorList).Error/element of a ErrorList (a list type decoded from JSON)": {1,
-		"ErrorList.Error() runs only when some code asks an error for its text (ToGqlError, NewError); rule R6s.path shows that a list answered by a service is only returned, joined by ExtendErrorList or formatted by FormatError on its way to the client — it is never asked for its text, so a `null` entry of a service's `errors` array is not dereferenced here (it reaches the client as null; checked: {\"errors\":[null]} yields errors:[null], no panic)"},
+		"on the request and subscription paths ErrorList.Error() runs only when some code asks an error for its text (ToGqlError, NewError); rule R6s.path shows that a list answered by a service is only returned, joined by ExtendErrorList or formatted by FormatError on its way to the client — it is never asked for its text there, so a `null` entry of a service's `errors` array is not dereferenced (it reaches the client as null; checked: {\"errors\":[null]} yields errors:[null], no panic). At start-up NewGateway wraps an introspection failure with fmt.Errorf(\"%w\"), which does call Error(): package fmt recovers the panic of an Error method and prints %!v(PANIC=…), so the process survives (audit: observed)"},
 	"executor.(*DepthExecutorManager).Execute/map lookup depthExecutors[…] without comma-ok": {1,
 		"the loop runs depth 0..maxDepth; walkPlanStep records depth d+1 only below a step of depth d, so every depth up to the maximum key has an executor (depth 0 is tested explicitly since the fix for the empty plan)"},
-	"introspection.(*IntrospectionResolver).ResolveIntrospectionFields/result of ast.ArgumentList).ForName (nil when absent)": {1,
-		"`name` is a required argument of __type: a document without it fails validation before planning (gate, rule R4b)"},
 	"pebbles.(*Gateway).newSubscriptionEntry/map lookup map[string]queryer.Queryer[…] without comma-ok": {1,
 		"getQueryers inserts an entry for the URL of every step it is given, and rootStep is one of those steps"},
 	"introspection.parseTypeRef/pointer field introspection.IntrospectionTypeRef.OfType of a JSON-decoded struct": {3,
-		"start-up only; a spec-compliant introspection answer (precondition of C15) always carries ofType for NON_NULL and LIST"},
+		"introspectRemoteSchema converts a type only after checkTypeRefs accepted it, and a directive's arguments only after the same test: every reference handed to parseTypeRef can be followed down to a named type (IntrospectionTypeRef.complete), so the wrappers it steps through carry ofType. Until the repair eb5f9b2 this line claimed that a spec-compliant answer always carries ofType; it does not for a type wrapped deeper than the query's TypeRef fragment selects (audit)"},
 }
 
 // errTable: deliberate drops / fallbacks, confirmed by reading.
 var errTable = map[string]tabEntry{
+	"queryer.(*MultiOpQueryer).Subscribe$2/test encoding/json.Unmarshal": {2,
+		"two fallback decodings in the upstream reader: a frame that does not decode as a data frame is tried as an error frame (and that second failure is reported to the subscriber); an error frame whose payload is not a single error object falls back to a generic error that is reported as well — in neither case does a failure go unreported"},
 	"format.(*Formatter).write/drop io.Writer.Write": {1,
 		"the writer is always the bytes.Buffer installed by BufferedFormatter.FormatSelectionSet; bytes.Buffer.Write never returns an error"},
 	"introspection.(*IntrospectionResolver).resolveType/test (*gqlparser/ast.Value).Value": {2,
@@ -95,10 +95,6 @@ var errTable = map[string]tabEntry{
 	"playground.(DefaultPlayground).ServePlayground/drop net/http.ResponseWriter.Write": {1,
 		"static playground page: a failed write means the browser went away"},
 	"pebbles.emitError/drop (*encoding/json.Encoder).Encode": {1, "the status line is already written; an encode/write failure means the client went away and cannot be told"},
-	"planner.extractSelectionSet/test (*planner.PlanningContext).GetURL": {1,
-		"deliberate fallback: fields without a route (id, fields of interfaces) stay in the current step's selection (comment in the source)"},
-	"planner.routeSelectionSet/test planner.filterSelectionSetByLoc": {1,
-		"second pass over the same selection with the internal pseudo-service: the same call already succeeded for every real location in the loop above, so it cannot fail here; `err == nil &&` only guards the use"},
 }
 
 // terminateTable: connection-owning functions without an error result whose reaction to a
@@ -107,7 +103,6 @@ var terminateTable = map[string]string{
 	"pebbles.(*Gateway).subscriptionHandler":   "websocket handler: any protocol/IO/validation failure ends the connection; teardown is deferred (R5 iv)",
 	"pebbles.(*Gateway).subscriptionHandler$2": "deferred teardown itself: a failed close-frame write means the peer is gone",
 	"pebbles.(*subscriptionEntry).Listen":      "per-subscription writer: a failed marshal/write ends the subscription; teardown is deferred (R5 v)",
-	"queryer.(*MultiOpQueryer).Subscribe$2":    "upstream reader: a read/decode failure ends the upstream subscription; the deferred function signals completion with resCh <- nil",
 }
 
 // detTable: map ranges whose order-independence needs an argument beyond the recognised
@@ -117,12 +112,6 @@ var detTable = map[string]tabEntry{
 		"K: writes qResps[ind] where ind is the loop key (slice element store keyed by the key)"},
 	"executor.(indexMap).GetSameIndexes/range param executor.indexMap": {1,
 		"early return on v.targetIndex == targetIndex: target indexes are assigned as len(iMap) at insertion, hence unique per entry — at most one iteration can match"},
-	"planner.(ScrubFields).clean/range param map[string][]string": {1,
-		"first match then break: the match is unique when __typename is present; when absent every registered type carries the same helper list for that path (the planner registers helpers per path) — shared stitched objects would break this, see R13k copy-per-place"},
-	"executor.(*DepthExecutorManager).merge/range .Result map[string]interface{}": {2,
-		"K: writes targetObj[k] / dem.result[key] for its own key; mergeMaps only touches the two values stored under that key"},
-	"executor.mergeMaps/range param map[string]interface{}": {1,
-		"K: every iteration reads and writes left[key] for its own key only (recursion descends into the values under that key)"},
 	"merger.(ExtendMergerFunc).Merge/range .Types map[string]*github.com/vektah/gqlparser/v2/ast.Definition": {1,
 		"each iteration mutates only the definition stored under its own key (fills union members from PossibleTypes[name], whose order comes from slices)"},
 	"merger.(TypeURLMap).GetURLs/range map[string]struct{}": {1,
@@ -137,27 +126,17 @@ var detTable = map[string]tabEntry{
 		"D: closes and deletes every entry; per key independent"},
 	"planner.(*CachedPlanner).clean/range .cacheTimers map[planner.hashKey]time.Time": {1,
 		"D: collect expired keys, then delete each — the set of deleted keys does not depend on order"},
-	"planner.(ScrubFields).Clean/range param planner.ScrubFields": {1,
-		"each entry deletes helper keys at its own path and prunes emptied ancestors; deletions at different paths commute (case analysis on object/list shapes, DESIGN Appendix A)"},
 	"planner.(ScrubFields).Merge/range param planner.ScrubFields": {1,
 		"K: writes sf[i][j] for the loop keys i (outer) and j (inner)"},
 	"planner.createQueryPlanSteps/range map[string]github.com/vektah/gqlparser/v2/ast.SelectionSet": {1,
-		"one step per location; the order of sibling steps permutes independent steps only (disjoint response keys; executor groups by URL)"},
-	"queryer.(*UploadMap).extract/range map[string]interface{}": {1,
-		"only the numbering of multipart parts follows map order; the file map and the parts are numbered consistently"},
-	"queryer.extractFiles/range .Variables map[string]interface{}": {1,
-		"only the numbering of multipart parts follows map order; the file map and the parts are numbered consistently"},
-	"requests.Parse/range map[string][]string": {1,
-		"injections at distinct variable slots commute; two files at the same slot fail in either order"},
+		"one step per location; the order of sibling steps decides only the order in which requests are created, and DepthExecutor.Execute sorts its requests on entry (R9b.sorted-entry) and answers every URL group at its own position (R9b POS-index); the early exit is an error return (an unroutable selection fails whichever location is visited first, with the same kind of error)"},
 }
 
 // detKinds / stepKinds: for every tabled loop, the kinds of order-sensitive effects the
 // tabled argument covers. A new kind of effect in the same loop is not covered.
 var detKinds = map[string][]string{
 	"executor.(*DepthExecutor).executeRequests/range map[int]struct{}":                                        {"store"},
-	"executor.(*DepthExecutorManager).merge/range .Result map[string]interface{}":                             {"call:executor.mergeMaps"},
 	"executor.(indexMap).GetSameIndexes/range param executor.indexMap":                                        {"early-exit"},
-	"executor.mergeMaps/range param map[string]interface{}":                                                   {"call:executor.mergeMaps", "call:executor.mergeSlices"},
 	"merger.(ExtendMergerFunc).Merge/range .Types map[string]*github.com/vektah/gqlparser/v2/ast.Definition":  {"store"},
 	"merger.(TypeURLMap).GetURLs/range map[string]struct{}":                                                   {"append-unsorted"},
 	"merger.(TypeURLMap).SetFromSchema/range param map[string]*github.com/vektah/gqlparser/v2/ast.Definition": {"call:(merger.TypeURLMap).Set", "call:(merger.TypeURLMap).SetTypeIsImplementsNode"},
@@ -165,13 +144,8 @@ var detKinds = map[string][]string{
 	"merger.mergeTypes/range param map[string]*github.com/vektah/gqlparser/v2/ast.Definition":                 {"call:merger.mergeCustomObjects", "call:merger.mergeRootObjects", "early-exit"},
 	"pebbles.(subscriptionDict).CleanAll/range param pebbles.subscriptionDict":                                {"call:(github.com/buildbuildio/pebbles.subscriptionDict).Clean"},
 	"planner.(*CachedPlanner).clean/range .cacheTimers map[planner.hashKey]time.Time":                         {"append-unsorted"},
-	"planner.(ScrubFields).Clean/range param planner.ScrubFields":                                             {"call:(planner.ScrubFields).clean", "call:(planner.ScrubFields).unhash"},
 	"planner.(ScrubFields).Merge/range param planner.ScrubFields":                                             {"mapwrite-unkeyed"},
-	"planner.(ScrubFields).clean/range param map[string][]string":                                             {"early-exit"},
 	"planner.createQueryPlanSteps/range map[string]github.com/vektah/gqlparser/v2/ast.SelectionSet":           {"call:planner.extractSelectionSet", "early-exit"},
-	"queryer.(*UploadMap).extract/range map[string]interface{}":                                               {"call:(*queryer.UploadMap).extract"},
-	"queryer.extractFiles/range .Variables map[string]interface{}":                                            {"call:(*queryer.UploadMap).extract"},
-	"requests.Parse/range map[string][]string":                                                                {"call:(*net/http.Request).FormFile", "call:(*requests.ParseRequestResponse).injectFile", "early-exit"},
 }
 var stepKinds = map[string][]string{
 	"executor.(*DepthExecutorManager).Execute":    {"append-unsorted"},
